@@ -1,6 +1,6 @@
 (* C04 — modules and hierarchy mirror the scanned directory tree, named from root_path. *)
 From Coq Require Import List Bool NArith.
-From PTA Require Import Names Graph Search Scan NamesProofs SearchProofs GraphProofs ScanProofs SubscanProofs.
+From PTA Require Import Names Graph Search Scan NamesProofs SearchProofs GraphProofs ScanProofs SubscanProofs RerootProofs.
 Import ListNotations.
 
 (* one module per non-excluded .py file and per non-excluded directory at or below the starting directory,
@@ -98,3 +98,24 @@ Proof.
   cbn [path_ok]. eexists. split; [right; left; reflexivity|]. split; [|exact I].
   intros n [<-|[<-|[]]]; cbn [cname]; [discriminate|reflexivity].
 Qed.
+
+(* A directory inside the project handed to the scan as a project of its own (root_path = module_path = that directory):
+   its modules and parsed files are those of the scan made from the outer root with module_path = that directory, every
+   name with the outer prefix [r :: pre] stripped - same order, same file bodies; an exclusion pattern sees the same path.
+   What lies above the directory that is given as the root has no influence on the names below it. *)
+Theorem C04_inner_root :
+  forall (comp : Type) (ceqb : comp -> comp -> bool) (excl : list comp -> bool) (r : comp) (pre : list comp) (r' : comp)
+         (tree cs : list (@fsnode comp)),
+  subdir ceqb tree (pre ++ [r']) = Some cs ->
+  walk_from ceqb excl r tree (pre ++ [r']) =
+  option_map (lift_res r pre) (walk_from ceqb (inner_excl excl pre r') r' cs []).
+Proof. exact @inner_root_walk. Qed.
+Print Assumptions C04_inner_root.
+
+(* non-vacuity: proj/src/proj - the inner directory bears the outer root's name *)
+Example C04_inner_root_example :
+  let tree := [FDir 2%N [FDir 1%N [FFile 3%N true []; FDir 4%N [FFile 5%N true []]]]; FFile 6%N true []] in
+  subdir N.eqb tree ([2%N] ++ [1%N]) = Some [FFile 3%N true []; FDir 4%N [FFile 5%N true []]] /\
+  option_map fst (walk_from N.eqb (fun _ => false) 1%N tree [2%N; 1%N]) = Some [[1;2;1]; [1;2;1;3]; [1;2;1;4]; [1;2;1;4;5]]%N /\
+  option_map fst (walk_from N.eqb (fun _ => false) 1%N [FFile 3%N true []; FDir 4%N [FFile 5%N true []]] []) = Some [[1]; [1;3]; [1;4]; [1;4;5]]%N.
+Proof. repeat split; vm_compute; reflexivity. Qed.
